@@ -113,6 +113,8 @@ thread_local! {
 pub struct Framing {
     /// The last status line before the program's output (with its newline).
     pub before: Vec<u8>,
+    /// The same for an object file, where the wording differs.
+    pub before_object: Option<Vec<u8>>,
     /// What follows the program's output, up to where the file name is printed.
     pub after: Option<Vec<u8>>,
 }
@@ -122,6 +124,7 @@ pub fn framing() -> &'static Framing {
     FRAMING.get_or_init(|| {
         let fallback = Framing {
             before: b"Running emitted binary\n".to_vec(),
+            before_object: None,
             after: Some(b"   Completed target ".to_vec()),
         };
         // Prints a marker and ends by jumping to 0xFFFF: no HALT message in between
@@ -158,15 +161,52 @@ pub fn framing() -> &'static Framing {
         }
         let name = b"calprog.asm";
         let after = post.windows(name.len()).position(|w| w == name).map(|i| post[..i].to_vec()).filter(|a| a.len() >= 3);
-        Framing { before, after }
+        // The same program as an object file
+        let mut before_object = None;
+        let compiled = run_lace(
+            &scratch,
+            &Run {
+                args: vec!["compile".into(), "calprog.asm".into(), "calprog.lc3".into()],
+                cwd: &scratch.dir,
+                stdin: b"",
+                plan: None,
+                watch: None,
+                rlimit_fsize: None,
+            },
+        );
+        if compiled.status == Some(0) {
+            let p = run_lace(
+                &scratch,
+                &Run {
+                    args: vec!["run".into(), "calprog.lc3".into()],
+                    cwd: &scratch.dir,
+                    stdin: b"",
+                    plan: None,
+                    watch: None,
+                    rlimit_fsize: None,
+                },
+            );
+            if let Some(at) = p.stdout.windows(marker.len()).position(|w| w == marker) {
+                let pre = &p.stdout[..at];
+                if let Some(end) = pre.iter().rposition(|b| *b == b'\n') {
+                    let start = pre[..end].iter().rposition(|b| *b == b'\n').map(|i| i + 1).unwrap_or(0);
+                    let line = pre[start..=end].to_vec();
+                    if !line.windows(7).any(|w| w == b"calprog") && line.len() >= 3 && line != before {
+                        before_object = Some(line);
+                    }
+                }
+            }
+        }
+        Framing { before, before_object, after }
     })
 }
 
 /// The program's own output within the standard output of `lace run` / `lace debug`.
 pub fn program_output(stdout: &[u8]) -> Option<Vec<u8>> {
     let f = framing();
-    let at = stdout.windows(f.before.len()).position(|w| w == &f.before[..])?;
-    let rest = &stdout[at + f.before.len()..];
+    let find = |marker: &Vec<u8>| stdout.windows(marker.len()).position(|w| w == &marker[..]).map(|at| at + marker.len());
+    let start = find(&f.before).or_else(|| f.before_object.as_ref().and_then(find))?;
+    let rest = &stdout[start..];
     let end = match &f.after {
         Some(after) => rest.windows(after.len()).rposition(|w| w == &after[..]).unwrap_or(rest.len()),
         None => rest.len(),
